@@ -76,3 +76,30 @@ if os.environ.get('DETAIL'):
         txt+='\n(get-value ('+' '.join('|%s|'%n for n in names)+'))\n'
         open('/tmp/q2.smt2','w').write(txt)
         print(subprocess.run(['cvc5','--strings-exp','--tlimit=60000','/tmp/q2.smt2'],capture_output=True,text=True).stdout[:3000])
+if os.environ.get('EMATCH'):
+    pat=os.environ['EMATCH']
+    obs=[o for o in ex.obs if pat in o.name][:int(os.environ.get('EN','6'))]
+    for ob in obs:
+      for g in smt.split_goal(ob.goal)[:2]:
+        prem=[]
+        for c_ in ob.premises: prem+=smt.flatten_and(c_)
+        prem=smt.cone(prem,g)
+        s_=z3.Solver(); s_.set('timeout',20000); s_.set('auto_config',False); s_.set('smt.mbqi',False)
+        neg=z3.Not(g)
+        fs=prem+[neg]
+        fs=fs+smt.term_axioms(fs)
+        s_.add(fs)
+        t=time.time(); r=s_.check(); print('ematch',r,'%.2fs'%(time.time()-t),ob.name[:80],flush=True)
+if os.environ.get('TRIG'):
+    pat=os.environ['TRIG']
+    ob=[o for o in ex.obs if pat in o.name][int(os.environ.get('K','2'))]
+    g=smt.split_goal(ob.goal)[0]
+    prem=[]
+    for c_ in ob.premises: prem+=smt.flatten_and(c_)
+    prem=smt.cone(prem,g)
+    ground=[c_ for c_ in prem if not smt._has_quant(c_)]
+    quant=[c_ for c_ in prem if z3.is_quantifier(c_)]
+    import cProfile,pstats
+    cProfile.run('inst=smt.trigger_instantiate(quant, ground+[z3.Not(g)])','/tmp/prof2.out')
+    print('instances',len(inst))
+    pstats.Stats('/tmp/prof2.out').sort_stats('cumulative').print_stats(14)
